@@ -407,12 +407,12 @@ Qed.
 Lemma liv_spawn : forall W s j, wf W = true -> LivQ W s (fun c => In c (queue s) \/ c = CSpawn j) -> Inv W s ->
   pc (jobs s j) = PSpawned -> Liv W (run_spawn W all_fixed s j).
 Proof.
-  intros W s j WF L I P. unfold run_spawn. simpl fx3.
+  intros W s j WF L I P. unfold run_spawn. simpl fx3. rewrite <- adopted_some.
   set (r := jobs s j) in *. set (news := map (dep_status s) (deps W j)).
-  set (p := spawn_l true (j_marker (spec W j)) r news).
+  set (p := spawn_l true (j_marker (spec W j)) (is_some_b (adopted W j)) r news).
   pose proof (I_loc I j) as L0. unfold jl in L0. fold r in L0.
   assert (Len : length news = length (deps W j)) by (apply map_length).
-  destruct (@spawn_l_ok (deps W j) (j_marker (spec W j)) (j_code (spec W j)) r news L0 P Len)
+  destruct (@spawn_l_ok (deps W j) (j_marker (spec W j)) (j_code (spec W j)) (adopted W j) r news L0 P Len)
     as (LI & C & ST & SND & RDY & HD & LA & DN & IST & FDP & CT & SHP).
   fold p in LI, C, ST, SND, RDY, HD, LA, DN, IST, FDP, CT, SHP.
   assert (NS : started (pc r) = false) by (rewrite P; auto).
@@ -426,13 +426,13 @@ Proof.
   - unfold commit; destruct (snd p); reflexivity.
   - fold r. congruence.
   - intros c [Hc| ->]; [left; rewrite EQ; auto|right; simpl; auto].
-  - intros X. destruct SHP as [Y|[Y|Y]]; congruence.
-  - intros X. destruct SHP as [Y|[Y|Y]]; rewrite Y in X; discriminate.
+  - intros X. destruct SHP as [Y|[Y|[Y|Y]]]; congruence.
+  - intros X. destruct SHP as [Y|[Y|[Y|Y]]]; rewrite Y in X; discriminate.
   - intros i t c _ Dp Cu. rewrite C, (NTH _ _ Dp) in Cu. inversion Cu as [X]. simpl in X.
     destruct (c <=? avail s t)%nat eqn:LE; [discriminate|]. left. apply Nat.leb_gt. exact LE.
   - intros i k _ Dp Cu. rewrite C, (NTH _ _ Dp) in Cu. inversion Cu as [X]. simpl in X. left. intros r0 PR.
     pose proof (@returned_finished W s k r0 I PR) as F. destruct (st (jobs s k)); simpl in F; discriminate.
-  - intros r0 X. destruct SHP as [Y|[Y|Y]]; congruence.
+  - intros r0 X. destruct SHP as [Y|[Y|[Y|Y]]]; congruence.
   - assert (EW : wst (commit s j p) = wst s /\ unfinished (commit s j p) = unfinished s) by (unfold commit; destruct (snd p); auto).
     destruct EW as (EW & EU). rewrite EW, EU, EQ. destruct (V_wait L) as (F1 & F2 & F3).
     split; [|split]; auto.
@@ -576,7 +576,7 @@ Proof.
   assert (P1 : pc r1 = PWoken ALockOutAbort) by (rewrite E1; exact P).
   assert (H1 : held r1 = []) by (rewrite E1; reflexivity).
   pose proof (I_loc I1 j) as LL. unfold jl in LL. fold r1 in LL.
-  destruct (@abort_l_ok _ _ _ r1 LL P1 H1) as (_ & SH).
+  destruct (@abort_l_ok _ _ _ _ r1 LL P1 H1) as (_ & SH).
   set (r2 := if uns r1 =? 0 then fst (set_event_l (w_st r1 READY)) else w_st r1 WAITING) in *.
   assert (R2 : cur r2 = cur r1 /\ held r2 = held r1).
   { unfold r2. destruct (uns r1 =? 0); [|auto].
@@ -603,7 +603,7 @@ Proof.
   assert (P1 : pc r1 = PWoken AProc) by (rewrite E1; exact P).
   assert (H1 : held r1 = []) by (rewrite E1; reflexivity).
   pose proof (I_loc I1 j) as LL. unfold jl in LL. fold r1 in LL.
-  destruct (@proc_l_ok _ _ _ r1 LL P1 H1) as (_ & SH & _).
+  destruct (@proc_l_ok _ _ _ _ r1 LL P1 H1) as (_ & SH & _).
   assert (OW : own j (CStep j)) by (simpl; auto).
   assert (S1 : started (pc (jobs s1 j)) = true) by (fold r1; rewrite P1; auto).
   assert (NR : forall r0, pc (jobs s1 j) <> PReturned r0) by (intros r0; fold r1; rewrite P1; discriminate).
@@ -722,6 +722,26 @@ Proof.
     exact (@livq_update_pw W s1 s' j r' Q Q' L1 I1 EJ EA EH HQ HS HW OT OJ HR VW WF).
 Qed.
 
+Lemma liv_adopt_return : forall W s j, wf W = true -> LivQ W s (fun c => In c (queue s) \/ c = CStep j) -> Inv W s ->
+  pc (jobs s j) = PWoken AAdopt -> Liv W (adopt_return W s j).
+Proof.
+  intros W s j WF L I P. unfold adopt_return. set (r := jobs s j) in *.
+  pose proof (I_loc I j) as LL. unfold jl in LL. fold r in LL.
+  destruct (adopted W j) as [v|] eqn:AD.
+  2:{ exfalso. apply (l_adpc LL); [rewrite P; reflexivity|reflexivity]. }
+  assert (FV : finished v = true).
+  { unfold adopted in AD. destruct (j_adopt (spec W j)); inversion AD. apply adopt_state_finished. }
+  destruct (@adopt_l_ok _ _ _ v r LL P FV) as (_ & SH & _).
+  assert (OW : own j (CStep j)) by (simpl; auto).
+  assert (S1 : started (pc (jobs s j)) = true) by (fold r; rewrite P; auto).
+  assert (NR : forall r0, pc (jobs s j) <> PReturned r0) by (intros r0; fold r; rewrite P; discriminate).
+  assert (NN : forall i, CStep j <> CNotify j i) by (intros; discriminate).
+  assert (NC : forall i, CStep j <> CCheck j i) by (intros; discriminate).
+  assert (C2 : cur (w_st r v) = cur (jobs s j)) by reflexivity.
+  assert (HH2 : held (w_st r v) = held (jobs s j)) by reflexivity.
+  exact (@liv_commit_loop W s j _ (adopt_l v r) (CStep j) WF L I OW S1 NR SH C2 HH2 NN NC).
+Qed.
+
 Lemma liv_check_cb : forall W s j i x, wf W = true -> (x = CCheck j i \/ x = CNotify j i) ->
   LivQ W s (fun c => In c (queue s) \/ c = x) -> Inv W s -> started (pc (jobs s j)) = true ->
   Liv W (check W all_fixed s j i).
@@ -768,6 +788,7 @@ Proof.
       * apply liv_lockoutrun; auto.
       * apply liv_proc_return; auto.
       * apply liv_done_return; auto.
+      * apply liv_adopt_return; auto.
   - apply (@liv_check_cb W s j i (CCheck j i)); auto.
   - destruct (nth_error (deps W j) i) as [[k|t c]|] eqn:Dp.
     + apply DROP. simpl. intros t c X. congruence.
@@ -895,7 +916,7 @@ Proof.
         assert (IN : In (DTok t c) (deps W j)) by (eapply nth_error_In; eauto).
         pose proof (@wf_dep W j (DTok t c) WF IN) as Y. simpl in Y.
         apply andb_true_iff in Y. destruct Y as (_ & Y). apply Nat.leb_le in Y. lia.
-    - assert (F : finished (st (jobs s j)) = true) by (apply (l_F LJ); eauto). rewrite SW in F. discriminate. }
+    - destruct (l_F LJ) as [F|F]; [eauto|rewrite SW in F; discriminate|rewrite P in F; discriminate]. }
   assert (ALL : forall j, spawned (pc (jobs s j)) = true -> exists r, pc (jobs s j) = PReturned r).
   { intros j Sj. apply (RET (Datatypes.S j) j); auto. }
   split; auto.
@@ -929,5 +950,26 @@ Example ex_quiescent_end :
 Proof.
   cbv zeta. split; [reflexivity|]. split; [exact posreq_W_fail|].
   split; [apply reachable_final; vm_compute; reflexivity|].
+  repeat split; vm_compute; reflexivity.
+Qed.
+
+(* a workload with processes left running by an earlier scheduler: one whose exit code cannot be
+   retrieved and that wrote no marker (ERROR), one that wrote its marker (DONE), and a dependent *)
+Definition W_adopt : workload :=
+  {| w_jobs := [ {| j_deps := []; j_code := 0; j_marker := false; j_ident := 0; j_adopt := Some (None, false) |};
+                 {| j_deps := [DTok 0 1]; j_code := 1; j_marker := false; j_ident := 1; j_adopt := Some (None, true) |};
+                 {| j_deps := [DJob 1; DTok 0 1]; j_code := 0; j_marker := false; j_ident := 2; j_adopt := None |} ];
+     w_tokens := [1%nat] |}.
+Definition L_adopt := expand W_adopt all_fixed (init W_adopt)
+  [XSubmit 0; XSubmit 1; XSubmit 2; XDeliver 1; XDeliver 0; XDeliver 1; XDeliver 0;
+   XDeliver 2; XDeliver 2; XDeliver 2; XDeliver 2; XWait]%nat.
+Example ex_adopted :
+  let s := final W_adopt all_fixed L_adopt in
+  wf W_adopt = true /\ reachable W_adopt s /\ queue s = [] /\ has_pending s W_adopt = false /\
+  pc (jobs s 0) = PReturned ERROR /\ launches (jobs s 0) = 0%nat /\
+  pc (jobs s 1) = PReturned DONE /\ launches (jobs s 1) = 0%nat /\
+  pc (jobs s 2) = PReturned DONE /\ launches (jobs s 2) = 1%nat /\ wst s = WRaised.
+Proof.
+  cbv zeta. split; [reflexivity|]. split; [apply reachable_final; vm_compute; reflexivity|].
   repeat split; vm_compute; reflexivity.
 Qed.
